@@ -244,9 +244,9 @@ def catalogue_events(ctx, rng):
             emit(ev, '')
     allc = C.all_operator_classes()
     abstract = ('odl.operator.operator.Operator', 'odl.solvers.functional.functional.Functional')
-    unc = sorted(n for n in allc if n not in reached and n not in abstract)
+    unc = sorted(n for n, c in allc.items() if c not in reached and n not in abstract)
     ctx.extra['operator_classes_total'] = len(allc)
-    ctx.extra['operator_classes_reached'] = len([n for n in allc if n in reached])
+    ctx.extra['operator_classes_reached'] = len([n for n, c in allc.items() if c in reached])
     ctx.extra['uncovered_classes'] = unc
     ctx.extra['recipes_not_constructed'] = notbuilt[:60]
     return events, meta
